@@ -372,8 +372,11 @@ impl G2Affine {
     /// `from_uncompressed()` instead.
     fn from_uncompressed_unchecked(bytes: &[u8; UNCOMPRESSED_SIZE]) -> CtOption<Self> {
         let mut raw = blst_p2_affine::default();
-        let success =
-            unsafe { blst_p2_deserialize(&mut raw, bytes.as_ptr()) == BLST_ERROR::BLST_SUCCESS };
+        // `blst_p2_deserialize` also parses the *compressed* form (compression bit set) from
+        // the first half of the buffer and ignores the rest; an uncompressed encoding never
+        // has that bit.
+        let success = bytes[0] & 0x80 == 0
+            && unsafe { blst_p2_deserialize(&mut raw, bytes.as_ptr()) == BLST_ERROR::BLST_SUCCESS };
         CtOption::new(G2Affine(raw), Choice::from(success as u8))
     }
 
